@@ -4,3 +4,7 @@ pub mod session;
 pub mod state_machine;
 mod timers;
 mod util;
+
+// Verification hook (off unless built with --cfg nlnetlabs_routecore_verif).
+#[cfg(nlnetlabs_routecore_verif)]
+pub use timers::Timer as VerifTimer;
